@@ -1,7 +1,8 @@
 """C17 rules: R-AUTH-GATE, R-AUTH-SET, R-AUTH-FAIL."""
 import re
 from facts import callee, op_local, op_place, promoted_consts, const_int
-import cfg, shared, prov
+import cfg, shared, prov, boolpath
+from facts import op_is_const
 from shared import SERVER, ENGINE
 
 PF = SERVER + "process_frame"
@@ -115,30 +116,184 @@ def state_tests(ctx, b):
     return out
 
 
+def _has_password_field(b, o):
+    if op_is_const(o):
+        return False
+    return any(f.endswith("NetworkConfig.password") for f in prov.operand_origins(b, o).fields)
+
+
+def _is_authd_operand(b, bbi, a):
+    pc = shared._promoted_through_ref(b, bbi, a)
+    if pc and any(x.get("agg") == AUTHD for x in pc):
+        return True
+    if op_is_const(a):
+        return False
+    P = prov.operand_origins(b, a)
+    return any(r[0] == "agg" and r[1] == AUTHD for r in P.roots)
+
+
+class GateSpec(boolpath.Spec):
+    """evidence for `this frame may be served`: no password is configured, or the connection's state
+    equals Authenticated.  Tests may sit in process_frame itself, in a helper (inlined or
+    summarised) or in the closure handed to with_connection (`|c| c.state == Authenticated`)."""
+
+    def __init__(s, ctx, b, memo=None, password=True, state=True):
+        s.ctx = ctx; s.b = b; s.memo = memo if memo is not None else {}
+        s.password = password; s.state = state
+        s.state_tests = 0; s.password_tests = 0
+
+    def _kind_of(s, fn):
+        cb = s.ctx.prog.bodies.get(fn)
+        if cb is None or cb.locals[0] != "bool":
+            return None
+        k = (fn, s.password, s.state)
+        if k not in s.memo:
+            s.memo[k] = None
+            sub = GateSpec(s.ctx, cb, s.memo, s.password, s.state)
+            try:
+                s.memo[k] = boolpath.ret_kind(cb, sub)
+            except boolpath.TooManyStates:
+                s.memo[k] = None
+            if s.memo[k] is not None and (sub.state_tests or sub.password_tests):
+                s.memo[k] = (s.memo[k], sub.state_tests, sub.password_tests)
+            else:
+                s.memo[k] = None
+        return s.memo[k]
+
+    def call(s, b, bbi, t):
+        f = t["f"] or ""
+        m = re.search(r"std::option::Option::<.*>::(is_some|is_none)$", f)
+        if m and t["a"] and s.password and _has_password_field(b, t["a"][0]):
+            s.password_tests += 1
+            return boolpath.A if m.group(1) == "is_none" else boolpath.N
+        d = t["def"] or ""
+        if s.state and (d.endswith("::eq") or d.endswith("::ne")) and "ConnectionState" in f:
+            if any(_is_authd_operand(b, bbi, a) for a in t["a"]):
+                s.state_tests += 1
+                return boolpath.A if d.endswith("::eq") else boolpath.N
+        # local bool helper / bool closure called directly
+        k = s._kind_of(callee(t))
+        if k:
+            s.state_tests += k[1]; s.password_tests += k[2]
+            return k[0]
+        # Option<bool>::unwrap_or(false) / == Some(true) of a closure-borne verdict
+        if re.search(r"^std::option::Option::<bool>::(unwrap_or|unwrap_or_default)$", f) and t["a"] and not op_is_const(t["a"][0]):
+            if s._verdict_option(b, op_place(t["a"][0])["l"]) and (len(t["a"]) < 2 or boolpath._const_bool(t["a"][1]) == boolpath.F):
+                return boolpath.A
+        return None
+
+    def _verdict_option(s, b, l, depth=0):
+        """Option<bool> local produced by a call that runs an accepting bool closure (with_connection)"""
+        if depth > 5:
+            return False
+        for kind, bbi, x in prov.build_defs(b).get(l, ()):
+            if kind == "call":
+                for c in x.get("clos") or []:
+                    k = s._kind_of(c)
+                    if k and k[0] == boolpath.A:
+                        s.state_tests += k[1]; s.password_tests += k[2]
+                        return True
+                return False
+            if x["r"]["k"] == "use" and not op_is_const(x["r"]["o"]) and not x["l"]["p"]:
+                if s._verdict_option(b, op_place(x["r"]["o"])["l"], depth + 1):
+                    return True
+        return False
+
+    def stmt(s, b, bbi, st):
+        # `let Some(is_auth) = self.connections.with_connection(id, |c| c.state == Authenticated) else ..`
+        # `let Some((db, in_tx, is_auth)) = ...with_connection(id, |c| (c.db_index, .., c.state == Authenticated))`
+        r = st["r"]
+        if r["k"] == "use" and not op_is_const(r["o"]):
+            pl = op_place(r["o"])
+            ty = b.locals[pl["l"]].replace("std::option::", "")
+            if pl["p"] and ty.startswith("Option<bool>") and s._verdict_option(b, pl["l"]):
+                return boolpath.A
+            idx = [e["f"] for e in pl["p"] if isinstance(e, dict) and "f" in e and str(e["f"]).isdigit()]
+            if pl["p"] and ty.startswith("Option<(") and idx:
+                return s._verdict_tuple(b, pl["l"], int(idx[-1]))
+        return None
+
+    def _verdict_tuple(s, b, l, k, depth=0):
+        if depth > 5:
+            return None
+        for kind, bbi, x in prov.build_defs(b).get(l, ()):
+            if kind == "call":
+                for c in x.get("clos") or []:
+                    cb = s.ctx.prog.bodies.get(c)
+                    if cb is None:
+                        continue
+                    key = ("tuple", c, k, s.password, s.state)
+                    if key not in s.memo:
+                        sub = GateSpec(s.ctx, cb, s.memo, s.password, s.state)
+                        try:
+                            v = boolpath.tuple_field_kind(cb, sub, k)
+                        except boolpath.TooManyStates:
+                            v = None
+                        s.memo[key] = (v, sub.state_tests, sub.password_tests) if v and (sub.state_tests or sub.password_tests) else None
+                    if s.memo[key]:
+                        s.state_tests += s.memo[key][1]; s.password_tests += s.memo[key][2]
+                        return s.memo[key][0]
+                return None
+            if x["r"]["k"] == "use" and not op_is_const(x["r"]["o"]) and not x["l"]["p"]:
+                v = s._verdict_tuple(b, op_place(x["r"]["o"])["l"], k, depth + 1)
+                if v:
+                    return v
+        return None
+
+    def edges(s, b, bbi, t):
+        out = []
+        if op_is_const(t["d"]):
+            return out
+        dl = op_place(t["d"])["l"]
+        for st in reversed(b.bbs[bbi]["s"]):
+            if st["k"] == "=" and st["l"]["l"] == dl and not st["l"]["p"]:
+                if st["r"]["k"] == "discr":
+                    pl = st["r"]["p"]
+                    ty = b.locals[pl["l"]]
+                    fproj = [e for e in pl["p"] if isinstance(e, dict) and "f" in e]
+                    is_state = (not fproj and re.match(r"^(&(mut )?)*network::connection::ConnectionState$", ty)) or \
+                               (fproj and fproj[-1]["f"].endswith("Connection.state") and not [e for e in pl["p"] if isinstance(e, dict) and "f" not in e])
+                    if s.state and is_state:
+                        dv = s.ctx.prog.variant_discr("network::connection::ConnectionState", "Authenticated")
+                        ts = dict(t["ts"])
+                        if dv in ts:
+                            s.state_tests += 1
+                            out.append(ts[dv])
+                    elif s.password and "Option<" in ty and _has_password_field(b, {"cp": pl}):
+                        ne = boolpath.none_edge(b, bbi, t, lambda b_, o_: True)
+                        if ne:
+                            s.password_tests += 1
+                        out += list(ne)
+                break
+        return out
+
+
 ALLOWED_PREAUTH = (SERVER + "handle_auth", SERVER + "handle_ping")
+
+
+def gate_regions(ctx, b):
+    """(exploration, refuse region) of the authentication gate in b: the refuse region is what is
+    reached without evidence once no gate test lies ahead any more (password set, not authenticated)"""
+    def compute():
+        spec = GateSpec(ctx, b)
+        ex = boolpath.explore(b, spec)
+        refuse = {x for x in ex.reached if x not in ex.evidence_switches and not (cfg.fwd(b, [x]) & ex.evidence_switches)}
+        if not ex.evidence_switches:
+            refuse = set()
+        return spec, ex, refuse
+    return ctx.memo(("gate_regions", b.fn), compute)
 
 
 def rule_gate(ctx, R):
     b = ctx.prog.need(PF)
-    t1 = password_tests(b); t2 = state_tests(ctx, b)
-    if not t1 or not t2:
-        R.inst(PF, "gate")
-        R.finding(PF, "gate:missing", "no authentication gate (password.is_some() && state != Authenticated) found in process_frame", b.loc())
-        return
-    # the gate: a T2 whose block is reachable from T1's password-set edge
-    gate = None
-    for (a, asw, a_set, a_none) in t1:
-        for (c, csw, c_auth, c_not) in t2:
-            if c in cfg.fwd(b, [a_set]):
-                gate = (a, asw, a_set, a_none, c, csw, c_auth, c_not); break
-        if gate:
-            break
-    if gate is None:
-        R.inst(PF, "gate")
-        R.finding(PF, "gate:missing", "password test and state test are not combined into a gate", b.loc()); return
-    a, asw, a_set, a_none, c, csw, c_auth, c_not = gate
-    refuse = cfg.fwd(b, [c_not])
-    R.inst(PF, "gate", {"password_test": b.loc(a), "state_test": b.loc(c), "refuse_region_blocks": len(refuse)})
+    spec = GateSpec(ctx, b)
+    try:
+        ex = boolpath.explore(b, spec)
+    except boolpath.TooManyStates as e:
+        R.broken.append(str(e)); return
+    R.inst(PF, "gate", {"password_tests_seen": spec.password_tests, "state_tests_seen": spec.state_tests})
+    if not spec.password_tests or not spec.state_tests:
+        R.finding(PF, "gate:missing", "no authentication gate (no password configured, or the connection's state equals Authenticated) found in process_frame", b.loc())
     cache = {}
     npriv = 0
     for i, t in b.calls():
@@ -147,28 +302,15 @@ def rule_gate(ctx, R):
         cal = callee(t)
         short = shared.site_name(ctx, t)
         npriv += 1
-        in_refuse = i in refuse
-        dom = cfg.dominates(b, a, i)
-        skip_t2 = cfg.path_avoiding(b, [a_set], [i], {c, csw}) is not None if i not in (c, csw) else False
-        R.inst(PF, "priv:" + short, {"call": short, "at": b.loc(i), "dominated_by_gate": dom, "reachable_from_refuse_edge": in_refuse})
+        open_ = i in ex.reached
+        R.inst(PF, "priv:" + short, {"call": short, "at": b.loc(i), "reachable_without_passing_the_gate": open_})
         if cal in ALLOWED_PREAUTH:
             continue
-        if not dom or skip_t2:
+        if open_:
             R.finding(PF, "priv:%s:before-gate" % short,
-                      "privileged call %s (line %d) is not dominated by the authentication gate: an unauthenticated connection can reach it" % (short, b.bb_line(i)), b.loc(i))
-        elif in_refuse:
-            R.finding(PF, "priv:%s:on-refuse-edge" % short,
-                      "privileged call %s (line %d) is reachable from the gate's refuse edge (password set, connection not authenticated)" % (short, b.bb_line(i)), b.loc(i),
-                      witness=["bb%d %s" % (x, b.loc(x)) for x in (cfg.path_avoiding(b, [c_not], [i], ()) or [])][:8])
+                      "privileged call %s (line %d) can be reached on a path that establishes neither `no password configured` nor `connection state == Authenticated`: an unauthenticated connection can reach it" % (short, b.bb_line(i)), b.loc(i),
+                      witness=["bb%d %s" % (x, b.loc(x)) for x in ex.witness(b, i)][-10:])
     R.floor("privileged_calls_in_process_frame", npriv)
-    # the refuse edge itself: only AUTH, PING, replies
-    for i in sorted(refuse):
-        t = b.term(i)
-        if t["k"] == "call":
-            cal = callee(t)
-            if cal.startswith(SERVER) and cal not in ALLOWED_PREAUTH:
-                if is_priv_site(ctx, t, cache):
-                    continue  # already reported above
     # frame path outside process_frame: per-frame code of process_connection
     pc = ctx.prog.need(PC)
     import rules_conn
@@ -214,7 +356,9 @@ def rule_set(ctx, R):
                 if not isauth:
                     continue
                 n += 1
-                why = auth_store_context(ctx, fn, b, i)
+                aggs = [r[2] for r in P.roots if r[0] == "agg" and r[1] == AUTHD] if P is not None else []
+                others = [r for r in P.roots if r[0] == "agg" and r[1] != AUTHD] if P is not None else []
+                why = auth_store_context(ctx, fn, b, i, aggs if others else None)
                 R.inst(fn, "store-authenticated", {"function": fn, "at": "%s:%s" % (b.file, st.get("line")), "context": why})
                 if why is None:
                     R.finding(fn, "store-authenticated:unjustified",
@@ -223,35 +367,49 @@ def rule_set(ctx, R):
     R.floor("authenticated_stores", n)
 
 
-def auth_store_context(ctx, fn, b, bbi):
+class PasswordEqSpec(boolpath.Spec):
+    """evidence: the password supplied by the client equals the configured one (full equality of
+    strings / byte slices -- not a prefix, case-insensitive or length-only comparison)"""
+
+    def call(s, b, bbi, t):
+        m = re.search(r"(String|str|\[u8\]|Vec<u8>|\[A\]) as std::cmp::PartialEq(<.*>)?>::(eq|ne)$", t["f"] or "")
+        if not m or len(t["a"]) != 2:
+            return None
+        srcs = [prov.operand_origins(b, x, deep=True) for x in t["a"]]
+        has_cfg = any(any(f.endswith("NetworkConfig.password") for f in P.fields) for P in srcs)
+        has_client = any(bool(P.params() - {1}) and not any(f.endswith("NetworkConfig.password") for f in P.fields) for P in srcs)
+        if has_cfg and has_client:
+            return boolpath.A if m.group(3) == "eq" else boolpath.N
+        return None
+
+
+def auth_store_context(ctx, fn, b, bbi, agg_sites=None):
     # (c) leaving Blocked: dominated by a discriminant test of ConnectionState == Blocked
     import rules_block
     if bbi in rules_block.blocked_test_regions(ctx, b):
         return "leaving Blocked state"
-    # (a) accept: dominated by the password-none edge
-    for (a, asw, a_set, a_none) in password_tests(b):
-        if bbi in cfg.edge_dom_set(b, asw, a_none):
+    # (a) accept: the Authenticated value is built only where no password is configured
+    try:
+        ex = boolpath.explore(b, GateSpec(ctx, b, state=False))
+        sites = agg_sites if agg_sites else [bbi]
+        if all(x not in ex.reached for x in sites):
             return "no password configured"
+    except boolpath.TooManyStates:
+        pass
     # (b) closure run from handle_auth under a full password equality
     if b.kind == "Closure":
         enc = ctx.prog.bodies.get(b.encl)
         if enc is not None:
+            try:
+                ex = boolpath.explore(enc, PasswordEqSpec())
+            except boolpath.TooManyStates:
+                ex = None
             for i, t in enc.calls():
-                if fn in t["clos"]:
-                    for j, tt in enc.calls():
-                        if not re.search(r"(String|str) as std::cmp::PartialEq(<.*>)?>::eq$", tt["f"] or ""):
-                            continue
-                        srcs = [prov.operand_origins(enc, x, deep=True) for x in tt["a"]]
-                        has_cfg = any(any(f.endswith("NetworkConfig.password") for f in P.fields) for P in srcs)
-                        has_client = any(bool(P.params() - {1}) and not any(f.endswith("NetworkConfig.password") for f in P.fields) for P in srcs)
-                        if not (has_cfg and has_client) or tt["t"] < 0:
-                            continue
-                        sw = shared._follow_to_switch(enc, tt["t"], tt["d"]["l"])
-                        if sw and i in cfg.edge_dom_set(enc, sw[0], sw[1]["o"]):
-                            # per connection: the connection id handed to with_connection is the parameter
-                            idop = t["a"][1] if len(t["a"]) > 1 else None
-                            if idop is not None and prov.operand_origins(enc, idop).params():
-                                return "AUTH with exact password equality"
+                if fn in t["clos"] and ex is not None and i not in ex.reached:
+                    # per connection: the connection id handed to with_connection is the parameter
+                    idop = t["a"][1] if len(t["a"]) > 1 else None
+                    if idop is not None and prov.operand_origins(enc, idop).params():
+                        return "AUTH with exact password equality"
     return None
 
 
